@@ -43,6 +43,36 @@ const K = {
   cond:      (i, J) => `const a${i} = (w) => (w ? ${J} : null);\n__out.k${i} = () => a${i}(true);`,
   asyncArrow:(i, J) => `const aa${i} = async () => ${J};\n__out.k${i} = () => { const pr = aa${i}(); return typeof pr.then; };`,
   asyncFn:   (i, J) => `async function af${i}() { return ${J}; }\n__out.k${i} = () => typeof af${i}().then;`,
+  generator: (i, J) => `function* gn${i}() { yield ${J}; }\n__out.k${i} = () => gn${i}().next().value;`,
+  classMethod: (i, J) => `class M${i} { m() { return ${J}; } }\n__out.k${i} = () => new M${i}().m();`,
+  classGetter: (i, J) => `class G${i} { get g() { return ${J}; } }\n__out.k${i} = () => new G${i}().g;`,
+  classStatic: (i, J) => `class St${i} { static m() { return ${J}; } }\n__out.k${i} = () => St${i}.m();`,
+  classCtor: (i, J) => `class Ct${i} { constructor() { this.v = ${J}; } }\n__out.k${i} = () => new Ct${i}().v;`,
+  staticBlock: (i, J) => `class Sb${i} { static v; static { Sb${i}.v = ${J}; } }\n__out.k${i} = () => Sb${i}.v;`,
+  privateField: (i, J) => `class Pf${i} { #f = ${J}; get f() { return this.#f; } }\n__out.k${i} = () => new Pf${i}().f;`,
+  iifeArrow: (i, J) => `const ia${i} = (() => ${J})();\n__out.k${i} = () => ia${i};`,
+  iifeFn: (i, J) => `const if${i} = (function () { return ${J}; })();\n__out.k${i} = () => if${i};`,
+  arrayElem: (i, J) => `const ar${i} = () => [${J}, 1];\n__out.k${i} = () => ar${i}();`,
+  objProp: (i, J) => `const op${i} = () => ({ p: ${J} });\n__out.k${i} = () => op${i}();`,
+  callArg: (i, J) => `const ca${i} = () => idf(${J});\n__out.k${i} = () => ca${i}();`,
+  newArg: (i, J) => `const na${i} = () => new Box(${J}).v;\n__out.k${i} = () => na${i}();`,
+  logical: (i, J) => `const lg${i} = () => c && ${J};\n__out.k${i} = () => lg${i}();`,
+  condBoth: (i, J) => `const cb${i} = (w) => (w ? ${J} : ${J});\n__out.k${i} = () => [cb${i}(true), cb${i}(false)];`,
+  sequence: (i, J) => `const sq${i} = () => (0, ${J});\n__out.k${i} = () => sq${i}();`,
+  attrArrow: (i, J) => `const aa${i} = () => <div onClick={() => ${J}} />;\n__out.k${i} = () => aa${i}().props.onClick();`,
+  vslotsValue: (i, J) => `const vv${i} = () => <Comp v-slots={{ foo: () => ${J} }} />;\n__out.k${i} = () => vv${i}().children.foo();`,
+  childExpr: (i, J) => `const ce${i} = () => <div>{c ? ${J} : null}</div>;\n__out.k${i} = () => ce${i}();`,
+  forOfHeader: (i, J) => `const fh${i} = [];\nfor (const q of [${J}]) fh${i}.push(q);\n__out.k${i} = () => fh${i};`,
+  whileBare: (i, J) => `let wn${i} = 0;\nlet ww${i};\nwhile (wn${i}++ < 2) ww${i} = ${J};\n__out.k${i} = () => ww${i};`,
+  doWhile: (i, J) => `let dn${i} = 0;\nlet dw${i};\ndo dw${i} = ${J}; while (dn${i}++ < 1);\n__out.k${i} = () => dw${i};`,
+  methodDefparam: (i, J) => `const om${i} = { m(p = ${J}) { return p; } };\n__out.k${i} = () => om${i}.m();`,
+  destructDefault: (i, J) => `const dd${i} = () => { const { z = ${J} } = {}; return z; };\n__out.k${i} = () => dd${i}();`,
+  paramDestructDefault: (i, J) => `function pd${i}({ p = ${J} } = {}) { return p; }\n__out.k${i} = () => pd${i}();`,
+  tryFinally: (i, J) => `function tf${i}() { try { return ${J}; } finally { idf(0); } }\n__out.k${i} = () => tf${i}();`,
+  catchBody: (i, J) => `function cb2${i}() { try { throw 0; } catch { return ${J}; } }\n__out.k${i} = () => cb2${i}();`,
+  multiDeclarator: (i, J) => `const md${i} = 1, me${i} = ${J}, mf${i} = 2;\n__out.k${i} = () => me${i};`,
+  exportConst: (i, J) => `export const ex${i} = ${J};\n__out.k${i} = () => ex${i};`,
+  exportFn: (i, J) => `export function ef${i}() { return ${J}; }\n__out.k${i} = () => ef${i}();`,
   // depth-2 contexts
   fnInArrow: (i, J) => `const a${i} = () => { function inner() { return ${J}; } return inner(); };\n__out.k${i} = () => a${i}();`,
   arrowInFn: (i, J) => `function f${i}() { const inner = () => ${J}; return inner(); }\n__out.k${i} = () => f${i}();`,
@@ -116,7 +146,7 @@ const T_DC = new Set(['dcProps', 'dcIface', 'dcIdentOpts', 'dcEmits', 'dcDefault
 function itemHasJsx(item) { return item.t ? T_JSX.has(item.t) : item.d ? !!D[item.d].jsx : true; }
 function itemAugmentable(item) { return !!item.t && T_DC.has(item.t); }
 
-const PRELUDE = 'const { Comp, B, s1, h1, c1, x, y, c, f, g } = __env.bound;\nlet xx = __env.bound.xx;\nlet yy = __env.bound.yy;\nlet mv = __env.mv0;\n';
+const PRELUDE = 'const { Comp, B, s1, h1, c1, x, y, c, f, g } = __env.bound;\nconst idf = (v) => v;\nclass Box { constructor(v) { this.v = v; } }\nlet xx = __env.bound.xx;\nlet yy = __env.bound.yy;\nlet mv = __env.mv0;\n';
 
 function renderHistory(items, ts) {
   return (ts ? TS_PRELUDE : '') + PRELUDE + items.map((it, i) => itemSrc(it, i)).join('\n') + '\n';
